@@ -429,6 +429,7 @@ fn read_pub(shm: &str) -> Option<(u16, i128, u32, u64)> {
 /// and - after the attribute is repaired and a second daemon started, as a supervisor would - whether the client
 /// that stayed attached sees the second daemon's publications in the same file (C04).
 /// `one_shot`: the worker dies of a single undecodable reply from chronyd instead (the cause is gone afterwards).
+/// Both daemons run on a host whose CLOCK_MONOTONIC_RAW lags CLOCK_MONOTONIC by 30 s (envshim.c: weeks of slewing).
 /// `uptime_s` > 0: the daemon's monotonic clocks read that much less until its first publication (envshim.c
 /// CBV_SHIM_EARLY_S): to the daemon, its start-up was that long ago when the worker dies - nothing in the
 /// statement limits how long a daemon has been up.
@@ -453,7 +454,7 @@ pub fn run_worker_death(bin: &str, shim: &str, uptime_s: u64, restart: bool, one
         let mark = "/run/cbv-early";
         let uptime_s = uptime_s.min((raw_mono_ns() / 2_000_000_000) as u64);
         let start = || {
-            daemon_command(&bin).args(["-r", "PHC0", "-i", IFACE]).env("LD_PRELOAD", &shim).env("CBV_SHIM_EARLY_S", uptime_s.to_string()).env("CBV_SHIM_EARLY_MARK", mark)
+            daemon_command(&bin).args(["-r", "PHC0", "-i", IFACE]).env("LD_PRELOAD", &shim).env("CBV_SHIM_EARLY_S", uptime_s.to_string()).env("CBV_SHIM_EARLY_MARK", mark).env("CBV_SHIM_RAW_LAG_S", "30")
                 .stdin(std::process::Stdio::null()).stdout(std::process::Stdio::null()).stderr(std::process::Stdio::null()).spawn()
         };
         let mut child = match start() {
@@ -531,8 +532,12 @@ pub fn run_worker_death(bin: &str, shim: &str, uptime_s: u64, restart: bool, one
             };
             let t1 = mono_ms();
             let before = left;
+            let mut gens_seen: Vec<u16> = vec![];
             let fresh = loop {
                 if let Some(p) = read_pub(shm) {
+                    if gens_seen.last() != Some(&p.0) && gens_seen.len() < 40 {
+                        gens_seen.push(p.0);
+                    }
                     if p.0 != 0 && p.0 % 2 == 0 && p.2 == 1 && before.map(|b| (b.0, b.1) != (p.0, p.1)).unwrap_or(true) {
                         break Some(p);
                     }
@@ -559,7 +564,7 @@ pub fn run_worker_death(bin: &str, shim: &str, uptime_s: u64, restart: bool, one
             }
             let _ = second.kill();
             let _ = second.wait();
-            out["second_lifetime"] = json!({"published_synchronized": fresh.is_some(), "generation": fresh.map(|f| f.0), "as_of_ns": fresh.map(|f| f.1.to_string()), "inode": fresh.map(|f| f.3),
+            out["second_lifetime"] = json!({"generations_seen_in_the_file": gens_seen, "published_synchronized": fresh.is_some(), "generation": fresh.map(|f| f.0), "as_of_ns": fresh.map(|f| f.1.to_string()), "inode": fresh.map(|f| f.3),
                 "inode_of_path_now": std::fs::metadata(shm).ok().map(|m| m.ino()), "attached_client_sees": seen,
                 "attached_client_caught_up": match (fresh, &seen) { (Some(f), Some(s)) => s["as_of_ns"].as_str().and_then(|a| a.parse::<i128>().ok()).map(|a| a >= f.1).unwrap_or(false), _ => false }});
         }
